@@ -156,6 +156,8 @@ Verdict judge(const Case& c) {
 Case gen() {
   Case c;
   double R = G::oneOf(std::vector<double>{100, 1000, 1000, 1e5, 1e7});
+  bool huge = G::chance(8);
+  if (huge) { R = G::oneOf(std::vector<double>{3e9, 2e10, 1e11}); ST.count("huge_polygon_extent_3e9_to_1e11"); }   // products of extents beyond 2^63
   bool outerPositive = G::coin();
   Paths64 poly = OFS::polyWithHoles(R, outerPositive);
   if (G::chance(2)) {
@@ -191,7 +193,8 @@ Case gen() {
   c.d["ml"] = G::chance(20) ? G::real(0.0, 1.0) : G::real(1.0, 5.0);
   if (G::chance(10)) c.d["ml"] = G::oneOf(std::vector<double>{1.0, 1.4142135623730951, 1.4142135623730949, 2.0, 100.0, 1e6});
   c.d["at"] = G::coin() ? 0.0 : G::real(0.05, 3.0);
-  if (G::chance(3) && R >= 1e5) {
+  if (huge && c.d["at"] > 0) c.d["at"] = ad * G::real(0.001, 0.01);   // keeps the arcs at a few hundred steps
+  if (!huge && G::chance(3) && R >= 1e5) {
     // an explicit arc tolerance that is tiny against a large delta (arcs of thousands of steps); a library that fell back
     // to its default tolerance here would leave a sag of 0.2% of delta, twice what the property allows
     c.d["at"] = G::oneOf(std::vector<double>{1e-9, 1e-6, 1e-4, 5e-4, 9.9e-4, 1e-3, 0.01});
